@@ -257,6 +257,10 @@ func ruleMathMap(c *Ctx) {
 		ncalls := 0
 		allInstrs(fn, func(in ssa.Instruction) {
 			if pkn, n, ok := stdCall(in); ok && pkn == "math" {
+				switch n {
+				case "IsInf", "IsNaN", "Copysign", "Signbit", "Inf", "NaN":
+					return // classification of special values around the libm call, not another computation
+				}
 				ncalls++
 				if n == libm[name] {
 					call = in.(*ssa.Call)
